@@ -33,6 +33,11 @@ def fresh(rng, kind, used):
             return name
 
 
+def occurrence(kind, old):
+    """the occurrences of an identifier: an instance/global variable spelled like a method (@total vs total) is another identifier"""
+    return (r"(?<![@$])\b%s\b" if kind == "method" else r"\b%s\b") % re.escape(old)
+
+
 def rename_cases(rng, text):
     """(kind, old, new, new_text)"""
     used = set(re.findall(r"[A-Za-z_][A-Za-z0-9_]*", text))
@@ -44,7 +49,7 @@ def rename_cases(rng, text):
         rng.shuffle(names)
         for old in names[:3]:
             new = fresh(rng, kind, used)
-            out.append((kind, old, new, re.sub(r"\b%s\b" % re.escape(old), new, text)))
+            out.append((kind, old, new, re.sub(occurrence(kind, old), new, text)))
     return out
 
 
@@ -64,6 +69,7 @@ BINDERS = [
     "class Kv1\n  def m_v2\n    \"1\"\n  end\n  def self.m_v3\n    2\n  end\nend\ndbtp Kv1.new.m_v2\nKv1.new.m_v2 + 1\ndbtp Kv1.m_v3\nKv1.new.m_v3\nKv1.m_v2\n",
     "class Kv1\n  def initialize(v2)\n    @v2 = v2\n  end\n  def m_v3\n    @v2\n  end\nend\nclass Kv4 < Kv1\n  def m_v5\n    m_v3\n  end\nend\ndbtp Kv4.new(1).m_v5\ndbtp Kv4.new('s').m_v3\nv6 = [Kv1.new(1), Kv4.new(2)]\ndbtp v6\nKv4.new\n",
     "module Kv1\n  class Kv2\n    def m_v3\n      :a\n    end\n  end\nend\nv4 = Kv1::Kv2.new\ndbtp v4\ndbtp v4.m_v3\ndbtp Kv1::Kv2.new.m_v3\nKv1::Kv2.nope\n",
+    "class Kv1\n  def initialize\n    @m_v2 = 1\n  end\n  def m_v2\n    \"s\"\n  end\n  def m_v3\n    @m_v2\n  end\nend\nv4 = Kv1.new\ndbtp v4.m_v2\ndbtp v4.m_v3\nv4.m_v2.upcase\nv4.m_v3.upcase\n",
     "v1 = ->(v2) { v2 }\ndbtp v1\nv3 = proc { |v4| v4 }\ndbtp v3\n",
     "v1 = 5\nv1 += 1\ndbtp v1\nv2 = \"a#{v1}b\"\ndbtp v2\nv2.nope\n",
 ]
@@ -104,7 +110,7 @@ def run_e2e(ctx, n, tag):
             continue
         if any(so.strip() for _, so, _ in b):
             nontriv.add(pi)
-        want = [(rc, re.sub(r"\b%s\b" % re.escape(old), new, so), cr) for rc, so, cr in b]
+        want = [(rc, re.sub(occurrence(kind, old), new, so), cr) for rc, so, cr in b]
         if want != o:
             failures.append({"kind": "rename-changes-output", "renamed": kind, "old": old, "new": new, "program": text,
                              "expected": [w[1] for w in want], "got": [x[1] for x in o], "key": ["rename", kind, text[:60]]})
